@@ -1,4 +1,8 @@
 # -*- coding: utf-8 -*-
+
+from vsg import severity
+
+
 def print_output(dRunInfo):
     """
     Displays results to stdout in a compact format.
@@ -11,7 +15,9 @@ def print_output(dRunInfo):
 
     sOutputString += " "
 
-    if dRunInfo["severities"]["Error"] == 0:
+    bNoErrors = has_no_error_type_violations(dRunInfo)
+
+    if bNoErrors:
         sOutputString += "OK"
     else:
         sOutputString += "ERROR"
@@ -28,7 +34,14 @@ def print_output(dRunInfo):
         sOutputString += ": "
         sOutputString += str(dRunInfo["severities"][sSeverity])
         sOutputString += "]"
-    if dRunInfo["severities"]["Error"] == 0:
+    if bNoErrors:
         return sOutputString, None
     else:
         return None, sOutputString
+
+
+def has_no_error_type_violations(dRunInfo):
+    for dViolation in dRunInfo["violations"]:
+        if dViolation["severity"]["type"] == severity.error_type:
+            return False
+    return True
